@@ -150,14 +150,24 @@ Kill(n) ==
 \* since the previous Advance is now expired (noticed at the next membership event).
 \* In the liveness variant expiring a LIVE registered node is a fault (costs budget).
 \* hb holds AGES, not times: 2 = heartbeat in this period, 1 = in the previous one, 0 = older (expired), -1 = no entry
-StaleLive == \E n \in alive : hb[n] = 1 /\ (IF n[1] = "op" THEN n[2] \in reg.op ELSE n[2] \in reg.sr)
 Advance ==
-  /\ IF Live THEN (StaleLive => nev < MaxEv) ELSE nev < MaxEv
+  /\ ~Live /\ nev < MaxEv
   /\ \E n \in Node : hb[n] > 0
   /\ hb' = [n \in Node |-> IF hb[n] <= 0 THEN hb[n] ELSE hb[n] - 1]
-  /\ nev' = IF Live THEN (IF StaleLive THEN nev + 1 ELSE nev) ELSE nev + 1
+  /\ nev' = nev + 1
   /\ Log([a |-> "Advance"])
   /\ UNCHANGED <<reg, now, alive, status, asm, st, ckptId, pend, publishing, completed, splitters, dep, sck, ock, msgs, nflaky, pubs, taint>>
+
+\* liveness variant: time passes; live nodes heartbeat in time, dead ones expire ...
+AdvanceLive ==
+  /\ Live /\ \E n \in Node \ alive : hb[n] > 0
+  /\ hb' = [n \in Node |-> IF n \notin alive /\ hb[n] > 0 THEN 0 ELSE hb[n]]
+  /\ UNCHANGED <<reg, now, alive, status, asm, st, ckptId, pend, publishing, completed, splitters, dep, sck, ock, msgs, nev, nflaky, pubs, taint, hist>>
+\* ... unless a live node's heartbeats are delayed beyond the deadline (a fault)
+ExpireLive(n) ==
+  /\ Live /\ nev < MaxEv /\ n \in alive /\ hb[n] > 0
+  /\ hb' = [hb EXCEPT ![n] = 0] /\ nev' = nev + 1
+  /\ UNCHANGED <<reg, now, alive, status, asm, st, ckptId, pend, publishing, completed, splitters, dep, sck, ock, msgs, nflaky, pubs, taint, hist>>
 
 -----------------------------------------------------------------------------
 (* start() on its own goroutine.  StartAssembly = its first half: (repaired:
@@ -166,7 +176,7 @@ Advance ==
    every member.                                                             *)
 StartAssembly ==
   /\ st.ph = "spawned"
-  /\ st' = [ph |-> "deploying", ck |-> completed, out |-> NodesOf(asm.ops, asm.srs), failed |-> FALSE]
+  /\ st' = [ph |-> "deploying", ck |-> IF Live THEN 0 ELSE completed, out |-> NodesOf(asm.ops, asm.srs), failed |-> FALSE]
   /\ pend' = IF Dev_PendingNotCleared THEN pend ELSE NoPend
   /\ splitters' = IF Dev_SplitterAppended THEN splitters + 1 ELSE 1
   /\ taint' = taint \cup (IF Dev_PendingNotCleared /\ pend.on THEN {"Dev_PendingNotCleared"} ELSE {})
@@ -219,7 +229,7 @@ DeployFail(n) ==
 -----------------------------------------------------------------------------
 \* the "checkpointing" ticker (registered while Running)
 Tick ==
-  /\ status = "Running" /\ (Live \/ nev < MaxEv)
+  /\ status = "Running" /\ (IF Live THEN publishing = {} ELSE nev < MaxEv)
   /\ nev' = IF Live THEN nev ELSE nev + 1
   /\ pubs' = IF Live THEN 0 ELSE pubs
   /\ IF pend.on
@@ -247,7 +257,9 @@ JobAck(n, id) ==
   /\ taint' = taint \cup (IF Panics(p) THEN {"Dev_SplitterAppended"} ELSE {})
 
 AckObs(n, id) == LET p == AfterAck(n, id) IN
-  [ok |-> Accepts(n, id) /\ ~Panics(p), panic |-> Panics(p), complete |-> Complete(p) /\ ~Panics(p)]
+  [ok |-> Accepts(n, id) /\ ~Panics(p), panic |-> Panics(p), complete |-> Complete(p) /\ ~Panics(p),
+   \* cur: the ack belongs to a checkpoint of the assembly the job is running on (only then is its fate demanded by C15)
+   cur |-> pend.on /\ pend.id = id /\ pend.gen = asm.gen /\ status = "Running"]
 
 \* runner s takes its queued StartCheckpoint: acks to the job, then a barrier to every operator of ITS deployment
 SrCkpt(s) ==
@@ -338,14 +350,14 @@ Safety == TypeOK /\ DeployOnlyToLiveFull /\ StopsUsingDeadAssembly /\ RedeployFr
 (* Liveness (Live = TRUE; MaxEv = fault budget): as long as enough nodes stay alive,
    the job gets back to Running and keeps publishing checkpoints. *)
 EnoughAlive == Cardinality(OpsOf(alive)) >= W /\ Cardinality(SrsOf(alive)) >= W
-Fair == /\ WF_vars(StartAssembly) /\ WF_vars(Advance) /\ WF_vars(Tick)
+Fair == /\ WF_vars(StartAssembly) /\ WF_vars(AdvanceLive) /\ WF_vars(Tick)
         /\ \A n \in Node : WF_vars(DeployDone(n)) /\ WF_vars(DeployFail(n)) /\ WF_vars(Register(n))
         /\ \A s \in Ids : WF_vars(SrCkpt(s))
         /\ WF_vars(\E m \in msgs : OpBarrier(m))
         /\ WF_vars(\E id \in publishing : Publish(id))
 LiveNext == \/ StartAssembly \/ (\E n \in Node : DeployDone(n) \/ DeployFail(n) \/ Register(n) \/ Deregister(n) \/ Kill(n))
             \/ (\E s \in Ids : SrCkpt(s)) \/ (\E m \in msgs : OpBarrier(m)) \/ (\E id \in publishing : Publish(id))
-            \/ Advance \/ Tick
+            \/ AdvanceLive \/ (\E n \in Node : ExpireLive(n)) \/ Tick
 LiveSpec == Init /\ [][LiveNext]_vars /\ Fair
 RunsAgain == <>[](~EnoughAlive) \/ <>[](status = "Running")
 CheckpointsResume == <>[](~EnoughAlive) \/ []<>(pubs = 1 /\ ~pend.on)
